@@ -148,6 +148,11 @@
     S.op = "simplify_using_context_assign"; std::shared_ptr<int> res(new int(-1));
     PSBin f = [res](PS& x, const PS& y) { *res = x.simplify_using_context_assign(y) ? 1 : 0; };
     tr(pre + ".simplify_using_context_assign(#" + std::to_string(bi) + ")"); note(C, S.op, A, UA, state_word(C, B, UB) + (ai == bi ? "|alias" : "")); S.changed.insert(ai);
+    if (risky(S.op)) {
+      hx::count("crash_probes");
+      int sig = crash_probe([&]() { PS X(A); std::unique_ptr<PS> Y(deep_copy(B)); X.simplify_using_context_assign(*Y); });
+      if (sig) { violation(key(S.op, "base_crash", "signal-" + std::to_string(sig)), "the operation applied to copies of the operands killed a forked probe process; A " + text(A) + " context " + text(B)); return; }
+    }
     size_t before = A.size(); std::vector<D> evA = elems(A), evB = elems(B);
     Un R; if (!apply_binary(C, ai, bi, S.op, f, R)) return;
     int r = *res;   // value returned by the monitored call (the alias differential ran afterwards on copies)
@@ -160,10 +165,16 @@
     // triage: does the base-level simplification of one disjunct in one context disjunct already lose/gain part of the meet,
     // or return false on a non-empty meet?
     bool base_fail = false; std::string base_wit;
-    for (size_t i = 0; i < evA.size() && !base_fail; ++i) for (size_t j = 0; j < evB.size() && !base_fail; ++j) {
-      D z(evA[i]); bool br = z.simplify_using_context_assign(evB[j]);
-      Un m1(1, M::meet(UA[i], UB[j])), m2(1, M::meet(M::shadow(z, n), UB[j])); Vec w;
-      if (M::included(n, m1, m2, &w) == 0 || M::included(n, m2, m1, &w) == 0 || (!br && !M::empty(n, m1[0]))) { base_fail = true; base_wit = "base level: " + text(evA[i]) + " simplified in context " + text(evB[j]) + " gives " + text(z) + " (returned " + (br ? "true" : "false") + "); "; }
+    // (both with the plain context disjuncts and with the progressively restricted ones the powerset algorithm uses)
+    for (int chain = 0; chain < 2 && !base_fail; ++chain) for (size_t i = 0; i < evA.size() && !base_fail; ++i) {
+      D enlarged(n);
+      for (size_t j = 0; j < evB.size() && !base_fail; ++j) {
+        D ctx(evB[j]); if (chain) ctx.intersection_assign(enlarged);
+        D z(evA[i]); bool br = z.simplify_using_context_assign(ctx);
+        Sh sc = M::shadow(ctx, n); Un m1(1, M::meet(UA[i], sc)), m2(1, M::meet(M::shadow(z, n), sc)); Vec w;
+        if (M::included(n, m1, m2, &w) == 0 || M::included(n, m2, m1, &w) == 0 || (!br && !M::empty(n, m1[0]))) { base_fail = true; base_wit = "base level: " + text(evA[i]) + " simplified in context " + text(ctx) + " gives " + text(z) + " (returned " + (br ? "true" : "false") + "); "; }
+        enlarged.intersection_assign(z);
+      }
     }
     std::string cls = std::string(ai == bi ? "alias" : "") + (base_fail ? std::string(ai == bi ? "-" : "") + "base-level" + (contains_ctx ? "-disjunct-contains-context" : "") : "");
     if (!base_wit.empty()) tr(" [" + base_wit + "]");
